@@ -72,9 +72,13 @@ func c20Axis(limit int) []float64 {
 	return out
 }
 
+// speeds a set Speed field is tried with (zero and negative are "set" too)
+var c20Speeds = []float64{0, 5.5, -1.5, 0.000001, 123456.789}
+
 type c20Case struct {
 	Lat, Lon          float64
 	Speed, Course     bool
+	SpeedVal          float64
 	CourseDeg         int
 	Magnetic, Comment bool
 }
@@ -85,7 +89,7 @@ func c20Body(c c20Case) (body string, validateErr error, panicMsg string) {
 		lat, lon := c.Lat, c.Lon
 		p.Lat, p.Lon = &lat, &lon
 		if c.Speed {
-			s := 5.5
+			s := c.SpeedVal
 			p.Speed = &s
 		}
 		if c.Course {
@@ -189,7 +193,12 @@ func C20(args []string) {
 		if cl := c20CheckCoord(lo, c.Lon, false); cl != "" {
 			report("lon-"+cl, c, body)
 		}
-		_, hasS := c20Field(body, "SPEED")
+		sp, hasS := c20Field(body, "SPEED")
+		if hasS && c.Speed {
+			if v, err := strconv.ParseFloat(sp, 64); err != nil || math.Abs(v-c.SpeedVal) > 1e-6*math.Max(1, math.Abs(c.SpeedVal)) {
+				report("speed-value", c, body)
+			}
+		}
 		co, hasC := c20Field(body, "COURSE")
 		_, hasM := c20Field(body, "COMMENT")
 		if hasS != c.Speed || hasC != c.Course || hasM != c.Comment {
@@ -246,12 +255,22 @@ func C20(args []string) {
 	for deg := 0; deg <= 360; deg++ {
 		for _, mag := range []bool{false, true} {
 			for opt := 0; opt < 4; opt++ {
-				judge(c20Case{Lat: 10.5, Lon: -20.25, Course: true, CourseDeg: deg, Magnetic: mag, Speed: opt&1 != 0, Comment: opt&2 != 0})
+				for _, sv := range c20Speeds {
+					if opt&1 == 0 && sv != 0 {
+						continue
+					}
+					judge(c20Case{Lat: 10.5, Lon: -20.25, Course: true, CourseDeg: deg, Magnetic: mag, Speed: opt&1 != 0, SpeedVal: sv, Comment: opt&2 != 0})
+				}
 			}
 		}
 	}
 	for opt := 0; opt < 4; opt++ {
-		judge(c20Case{Lat: 10.5, Lon: -20.25, Speed: opt&1 != 0, Comment: opt&2 != 0})
+		for _, sv := range c20Speeds {
+			if opt&1 == 0 && sv != 0 {
+				continue
+			}
+			judge(c20Case{Lat: 10.5, Lon: -20.25, Speed: opt&1 != 0, SpeedVal: sv, Comment: opt&2 != 0})
+		}
 	}
 	// out-of-range courses must be refused
 	for _, d := range []int{-1, 361, 1000, -360} {
